@@ -304,7 +304,17 @@ def emit_one(g: Gen, kind: str, fault_arm: bool) -> None:
         o = {"op": kind, "d": d, "s": s, "t": t, "n": g.count(300)}
         if rng.random() < 0.6:
             o["at"] = g.index(size)
+        shrink_tiles = kind == "del_row" and tm.nrows > 256 and rng.random() < 0.6
+        if shrink_tiles:
+            # several 256-row tiles shrink to fewer between two saves of the same Document
+            g.emit({"op": "save", "d": d, "slot": rng.choice(ALL_SLOTS)})
+            o["n"] = tm.nrows - rng.choice([256, 255, 200, 2])
+            if "at" in o:
+                o["at"] = rng.choice([0, 1, tm.nrows - o["n"]])
         g.emit(o)
+        if shrink_tiles:
+            g.emit({"op": "save", "d": d, "slot": rng.choice(ALL_SLOTS)})
+            g.emit({"op": "restart", "d": d, "slot": g.ops[-1]["slot"], "replace": False})
     elif kind == "add_table":
         rows, cols = pick_shape(rng, rng.choice(["tiny", "small", "default"]))
         o = {"op": "add_table", "d": d, "s": s, "rows": rows, "cols": cols, "hr": min(rng.choice([0, 1, 1, 2]), rows), "hc": min(rng.choice([0, 1, 1]), cols)}
